@@ -9,5 +9,5 @@ import (
 // the reference reader internal/jref.
 func init() {
 	pbt.DescribeMore(jany.Rule)
-	pbt.Register("anyjava", 1500, 4000, jany.Gen, func(c jany.Case) pbt.Verdict { return jany.Check(c, false) })
+	pbt.Register("anyjava", 1500, 2000, jany.Gen, func(c jany.Case) pbt.Verdict { return jany.Check(c, false) })
 }
